@@ -106,6 +106,13 @@ Proof. induction tab as [|c tab IH]; intros i; [reflexivity|]. cbn [LP.absr leng
 (* ------------------------------------------------------------------------------------ *)
 (** * the file at the end *)
 
+Lemma nth_fl_of : forall tab i,
+  nth i (fl_of tab) 0%Z = match nth_error tab i with Some c => Z_of_v (W.c_valid c) | None => 0%Z end.
+Proof.
+  induction tab as [|c tab IH]; intros i; [destruct i; reflexivity|].
+  destruct i as [|i]; cbn [fl_of map nth nth_error]; [reflexivity|]. apply IH.
+Qed.
+
 Section FinalFile.
 Variable cs : list chunk.
 Variable doff : N.
@@ -148,3 +155,385 @@ Proof.
 Qed.
 
 End FinalFile.
+
+(* ------------------------------------------------------------------------------------ *)
+(** * the byte-level run *)
+
+Section Run.
+Variable H : N -> bytes -> bytes.
+Variable h : header.        (* header record of B (what parse_impl returns for B) *)
+Variable fb : bytes.        (* B, as the server holds it *)
+Let cs := h_chunks h.
+Let doff := data_offset h.
+Let total := data_total cs.
+Let Hw := H (h_chash h).
+Let ds := N.to_nat (ds_of (h_chash h)).
+Let Hc := Hc_of H h.
+Let Hf := Hf_of H h.
+Let Bn := abs_new h fb.
+Let ul := ulf cs.
+
+(** the header fetch: the probe and the rest of the header land at offset 0 *)
+Definition fetch_bytes : bytes := firstn (N.to_nat (N.max U.min_download doff)) fb.
+
+Definition byte_update (old : option (header * bytes)) (serve : list W.rentry -> resp) (srv : N)
+                       (tf : bytes) (fl0 : list Z) (st : rstate)
+  : option (bstatus * list Z * bytes * list U.event) :=
+  let tf1 := W.file_write tf 0 fetch_bytes in
+  match validate_checksums H h tf1 fl0 st with
+  | None => None
+  | Some r =>
+      if (s_ret r =? 1)%Z then Some (BFinish, s_flags r, truncate (doff + total) tf1, [])
+      else
+        let '(fl2, tf2) :=
+          match old with
+          | Some (sh, sf) => match copy_chunks H sh sf h tf1 (s_flags r) with
+                             | Some (a, b, _) => (a, b)
+                             | None => (s_flags r, tf1)
+                             end
+          | None => (s_flags r, tf1)
+          end in
+        let fl3 := reset_flags fl2 in
+        match U.tbl 0 with
+        | None => Some (BOOB, fl3, tf2, [])
+        | Some m =>
+            let '(stt, tab, f, ev) :=
+              byte_loop Hw doff serve srv (length cs + length range_attempt + 1) m 0 (wtab cs fl3) tf2 [] in
+            Some (stt, fl_of tab, truncate (doff + total) f, ev)
+        end
+  end.
+
+(** hypotheses about B *)
+Hypothesis Wf : scan_wf h fb.
+Hypothesis Det : h_detached h = false.
+Hypothesis Szd : sized h.
+Hypothesis Lb : len fb = doff + total.
+Hypothesis B64 : doff + total < two64.
+Hypothesis Bv : UP.wf_new Hc Hf Bn (U.t_slots (abs h fb fb [])).
+
+Lemma St0 : starts_ok 0 cs.
+Proof. destruct Wf as [_ [_ S0]]. exact S0. Qed.
+
+Lemma Dpos : 0 < doff.
+Proof. destruct Wf as [Nz _]. unfold doff. lia. Qed.
+
+Lemma b_compl : b_complete cs doff fb.
+Proof.
+  unfold b_complete. apply Forall_forall. intros c Hin.
+  destruct (starts_total cs 0 St0 c Hin) as [_ Hs]. fold total in Hs. rewrite Lb. lia.
+Qed.
+
+Lemma srv_ok_slots f fl : Forall (UP.srv_ok Hc) (abs_slots doff cs fb f fl).
+Proof.
+  destruct Bv as [Sv _]. unfold abs in Sv. cbn [U.t_slots] in Sv. fold cs doff in Sv.
+  eapply (UP.srv_ok_shape Hc); [|exact Sv]. apply shape_abs_slots.
+Qed.
+
+Lemma sized_cs : Forall (fun c => length (c_digest c) = ds) cs.
+Proof.
+  destruct Szd as [Sc _]. fold cs in Sc. eapply Forall_impl; [|exact Sc]. cbn beta. intros c Lc.
+  unfold ds, len in *. lia.
+Qed.
+
+(** every chunk of B with stored bytes passes the download code's digest test *)
+Lemma bok : Forall (fun c => 0 < c_clen c ->
+              W.chunk_digest_ok Hw (W.mkChunk (c_start c) (c_clen c) (c_digest c) W.VUnknown)
+                (W.fread fb (doff + c_start c) (N.to_nat (c_clen c))) = true) cs.
+Proof.
+  apply Forall_forall. intros c Hin Pos.
+  pose proof (srv_ok_slots fb []) as Sv. 
+  apply In_nth_error in Hin. destruct Hin as [t Ht].
+  assert (exists s, nth_error (abs_slots doff cs fb fb []) t = Some s /\ U.s_chunk s = uchunk c /\
+                    U.s_srv s = sub fb (doff + c_start c) (c_clen c)) as [s [Hs [E1 E2]]].
+  { clear - Ht. revert t Ht. generalize (@nil Z). induction cs as [|c0 cs' IH]; intros fl t Ht; [destruct t; discriminate|].
+    destruct t as [|t]; cbn [nth_error abs_slots] in *.
+    - inversion Ht; subst. eexists. split; [reflexivity|]. auto.
+    - apply IH. exact Ht. }
+  rewrite Forall_forall in Sv. specialize (Sv s (nth_error_In _ _ Hs)). unfold UP.srv_ok in Sv.
+  rewrite E1, E2 in Sv. apply UP.chunk_ok_split in Sv; [|exact Hf]. destruct Sv as [Ls Dg].
+  pose proof b_compl as Bc. unfold b_complete in Bc. rewrite Forall_forall in Bc.
+  specialize (Bc c (nth_error_In _ _ Ht)).
+  rewrite fread_sub by lia.
+  unfold U.digest_ok in Dg. cbn [uchunk U.c_clen U.c_digest] in Dg.
+  replace (c_clen c =? 0) with false in Dg by (symmetry; apply N.eqb_neq; lia).
+  unfold W.chunk_digest_ok. cbn [W.c_len W.c_digest].
+  replace (c_clen c =? 0) with false by (symmetry; apply N.eqb_neq; lia).
+  pose proof sized_cs as Sc. rewrite Forall_forall in Sc. rewrite (Sc c (nth_error_In _ _ Ht)).
+  exact Dg.
+Qed.
+
+(** the file after the header fetch *)
+Lemma fetched_file tf : let tf1 := W.file_write tf 0 fetch_bytes in
+  doff <= len tf1 /\ (forall x, x < doff -> W.fget tf1 x = W.fget fb x) /\ scan_wf h tf1.
+Proof.
+  intros tf1. destruct Wf as [Nz [Le S0]]. fold doff in Nz, Le.
+  assert (Lp : doff <= len fetch_bytes).
+  { unfold fetch_bytes. rewrite len_firstn. lia. }
+  assert (Ne : fetch_bytes <> []) by (intros X; rewrite X in Lp; cbn in Lp; lia).
+  assert (L1 : doff <= len tf1).
+  { pose proof (file_write_len_cover tf 0 fetch_bytes Ne). fold tf1 in H0. lia. }
+  split; [exact L1|]. split.
+  - intros x Hx. unfold tf1. rewrite FL.fget_file_write.
+    replace (0 <=? x) with true by (symmetry; apply N.leb_le; lia).
+    replace (x <? 0 + len fetch_bytes) with true by (symmetry; apply N.ltb_lt; lia).
+    cbn [andb]. unfold fetch_bytes, W.fget. rewrite N.sub_0_r. apply FL.nth_firstn_lt. lia.
+  - split; [exact Nz|]. split; [exact L1 | exact S0].
+Qed.
+
+(* ---------------------------------------------------------------------------------- *)
+(** * flags: values and extents *)
+
+Definition norm (v : Z) : Prop := (v = 0 \/ v = 1 \/ v = -1)%Z.
+
+Lemma nth_abs_slots f : forall cs' fl i,
+  nth_error (abs_slots doff cs' fb f fl) i =
+  option_map (fun c => U.mkSlot (uchunk c) (sub fb (doff + c_start c) (c_clen c))
+                                (sub f (doff + c_start c) (c_clen c)) (flag_of_Z (nth i fl 0%Z)))
+             (nth_error cs' i).
+Proof.
+  induction cs' as [|c cs' IH]; intros fl i; [destruct i; reflexivity|].
+  destruct i as [|i]; cbn [abs_slots nth_error option_map].
+  - destruct fl; reflexivity.
+  - rewrite IH. destruct fl; [destruct i|]; reflexivity.
+Qed.
+
+(** a chunk that is flagged valid with a matching extent lies inside the file *)
+Lemma inside_of_good f fl :
+  Forall (UP.good Hc) (abs_slots doff cs fb f fl) -> inside doff cs fl f.
+Proof.
+  intros G i c Hn Hv. rewrite Forall_forall in G.
+  pose proof (nth_abs_slots f cs fl i) as Hs. rewrite Hn in Hs. cbn [option_map] in Hs.
+  destruct (G _ (nth_error_In _ _ Hs)) as [_ G2]. cbn [U.s_flag U.s_chunk U.s_cur] in G2.
+  rewrite Hv in G2. specialize (G2 eq_refl). apply UP.chunk_ok_split in G2; [|exact Hf].
+  destruct G2 as [Lc _]. cbn [uchunk U.c_clen] in Lc.
+  destruct (N.eq_dec (c_clen c) 0) as [Z|Z]; [left; exact Z|right].
+  rewrite (len_sub H) in Lc. lia.
+Qed.
+
+Lemma expected_flags_norm f : length (expected_flags H h f) = length cs /\ Forall norm (expected_flags H h f).
+Proof.
+  unfold expected_flags. fold cs.
+  destruct (all_true (classify H h f true cs) && negb (uflag h) && negb (data_good H h f)).
+  - split; [rewrite map_length; apply classify_length|].
+    apply Forall_forall. intros v Hin. apply in_map_iff in Hin. destruct Hin as [b [<- _]]. right; right; reflexivity.
+  - split; [rewrite map_length; apply classify_length|].
+    apply Forall_forall. intros v Hin. apply in_map_iff in Hin. destruct Hin as [b [<- _]].
+    destruct b; [right; left|right; right]; reflexivity.
+Qed.
+
+Lemma nth_reset fl i : nth i (reset_flags fl) 0%Z = (if (nth i fl 0 =? -1)%Z then 0 else nth i fl 0)%Z.
+Proof.
+  unfold reset_flags.
+  exact (map_nth (fun v => if (v =? -1)%Z then 0%Z else v) fl 0%Z i).
+Qed.
+
+Lemma norm_nth fl i : Forall norm fl -> norm (nth i fl 0%Z).
+Proof.
+  intros F. destruct (Nat.lt_ge_cases i (length fl)) as [L|L].
+  - rewrite Forall_forall in F. apply F. apply nth_In. exact L.
+  - rewrite nth_overflow by exact L. left. reflexivity.
+Qed.
+
+(* ---------------------------------------------------------------------------------- *)
+(** * the composed theorem *)
+
+Definition old_ok (old : option (header * bytes)) : Prop :=
+  match old with
+  | None => True
+  | Some (sh, sf) => known (h_chash sh) /\ known (h_chash h) /\ sized sh /\ src_complete sh sf
+  end.
+
+(** the server holds B and answers every consistent request with the requested extents *)
+Definition serves_B (serve : list W.rentry -> resp) : Prop :=
+  forall fl ridx, P.req_ok doff ridx (wtab cs fl) -> resp_ok (datas_of doff fb (wtab cs fl) ridx) (serve ridx).
+
+Lemma finish_status Bx hdr sl ev : exists e, U.o_status (U.finish Hc Hf Bx hdr sl ev) = U.Done e.
+Proof. unfold U.finish. destruct (U.validate_data Hc Hf Bx sl) as [ok sl']. eexists. reflexivity. Qed.
+
+Lemma all_ones fl' f : Forall (fun s => U.s_flag s = U.Valid) (abs_slots doff cs fb f fl') ->
+  forall i c, nth_error cs i = Some c -> nth i fl' 0%Z = 1%Z.
+Proof.
+  intros V i c Hn. pose proof (nth_abs_slots f cs fl' i) as Hs. rewrite Hn in Hs. cbn [option_map] in Hs.
+  rewrite Forall_forall in V. specialize (V _ (nth_error_In _ _ Hs)). cbn [U.s_flag] in V.
+  apply flag_valid_iff. exact V.
+Qed.
+
+Theorem byte_update_reconstructs old serve srv tf fl0 st :
+  old_ok old -> 1 <= srv -> serves_B serve ->
+  UP.collision Hc \/
+  exists fl' ev, byte_update old serve srv tf fl0 st = Some (BFinish, fl', fb, ev) /\
+                 (forall i c, nth_error cs i = Some c -> nth i fl' 0%Z = 1%Z).
+Proof.
+  intros Ho Hsrv Sv. unfold byte_update.
+  set (tf1 := W.file_write tf 0 fetch_bytes).
+  destruct (fetched_file tf) as [L1 [Hh1 W1]]. fold tf1 in L1, Hh1, W1.
+  destruct (validate_checksums_full H h tf1 fl0 st W1 Det) as [ch Er]. rewrite Er. cbn [s_ret s_flags].
+  set (fl1 := expected_flags H h tf1).
+  pose proof (find_valid_is_expected H h fb tf1 fl0 St0 Szd) as FV. fold cs doff Hc Hf Bn fl1 in FV.
+  set (sl0 := abs_slots doff cs fb tf1 fl0) in *. set (sl1 := abs_slots doff cs fb tf1 fl1) in *.
+  pose proof (srv_ok_slots tf1 fl0) as So0. pose proof (fits_abs_slots doff fb tf1 cs fl0) as Fi0. fold sl0 in So0, Fi0.
+  pose proof (UP.find_valid_good Hc Hf Bn sl0 So0 Fi0) as G1. rewrite FV in G1. cbn [snd] in G1.
+  pose proof (inside_of_good tf1 fl1 G1) as In1.
+  destruct (expected_flags_norm tf1) as [Len1 Nm1]. fold fl1 in Len1, Nm1.
+  destruct (expected_ret H h tf1 =? 1)%Z eqn:Ret.
+  - (* the target is complete already *)
+    destruct (UP.find_valid_true Hc Hf Bn sl0 sl1 FV) as [_ A1]. apply UP.all_valid_spec in A1.
+    pose proof (absr_abs_eqv cs doff fb [] cs fl1 tf1 eq_refl b_compl In1) as Ea. cbn [length] in Ea. fold sl1 in Ea.
+    pose proof (E.eqv_all_valid sl1 _ (E.eqv_sym _ _ Ea) A1) as Es.
+    destruct (UP.good_eq_or_collision Hc Hf sl1 G1 A1) as [Ec|C]; [|left; exact C].
+    right. exists fl1, []. split.
+    + rewrite Es in Ec. unfold total. rewrite (final_file cs doff fb St0 Lb _ fl1 tf1 Hh1 Ec). reflexivity.
+    + apply (all_ones fl1 tf1). exact A1.
+  - (* something is missing *)
+    assert (WfB : UP.wf_new Hc Hf Bn sl0).
+    { eapply (UP.wf_new_shape Hc Hf); [|exact Bv]. unfold abs. cbn [U.t_slots]. apply shape_abs_slots. }
+    unfold U.find_valid in FV.
+    destruct (U.all_valid (U.scan_flags Hc true sl0)) eqn:AV.
+    { destruct (U.b_uncomp Bn) eqn:Ub; [inversion FV|].
+      destruct (U.bytes_eqb (Hf (U.scanned_data true sl0)) (U.b_ddigest Bn)) eqn:Md; [inversion FV|].
+      left. exact (UP.find_valid_mismatch_collision Hc Hf Bn sl0 WfB Fi0 AV Ub Md). }
+    inversion FV as [E2]. clear FV.
+    (* copy from the old file *)
+    assert (exists fl2 tf2 Aopt,
+              match old with
+              | Some (sh, sf) => match copy_chunks H sh sf h tf1 fl1 with
+                                 | Some (a, b, _) => (a, b) | None => (fl1, tf1) end
+              | None => (fl1, tf1)
+              end = (fl2, tf2) /\
+              E.eqv (abs_slots doff cs fb tf2 fl2) (U.copy_chunks Hc Aopt sl1) /\
+              (forall x, x < doff -> W.fget tf2 x = W.fget fb x) /\
+              inside doff cs fl2 tf2 /\ length fl2 = length cs /\ Forall norm fl2)
+      as [fl2 [tf2 [Aopt [Em [Ecp [Hh2 [In2 [Len2 Nm2]]]]]]]].
+    { destruct old as [[sh sf]|].
+      - destruct Ho as [Ks [Kt [Ss Sc]]].
+        destruct (BC.link_copy_eqv H sh sf h fb tf1 fl1 Ks Kt Ss Szd St0 Sc) as [fl2 [tf2 [Ec [Ev [_ [_ Fi2]]]]]].
+        { intros i c Hn Hv. destruct (In1 i c Hn Hv) as [Z|Cm]; [left; exact Z|right]. unfold ext_lo. fold doff. exact Cm. }
+        { exact L1. }
+        exists fl2, tf2, (Some (abs_old sh sf)). rewrite Ec.
+        destruct (copy_chunks_sound H sh sf h tf1 fl1 fl2 tf2 sf Ks Kt St0 Ec) as [_ [Lf [_ [Hb [_ Cp]]]]].
+        split; [reflexivity|]. split; [exact Ev|].
+        split; [intros x Hx; rewrite (Hb x Hx); apply Hh1; exact Hx|].
+        split; [intros i c Hn Hv; destruct (Fi2 i c Hn Hv) as [Z|Cm]; [left; exact Z|right; unfold ext_lo in Cm; exact Cm]|].
+        split; [exact Lf|].
+        apply (Forall_nth_len norm 0%Z). intros i Hi. fold cs in Lf. rewrite Lf in Hi.
+        destruct (nth_error cs i) as [tc|] eqn:Hn; [|apply nth_error_None in Hn; lia].
+        destruct (Cp i tc Hn) as [_ [_ [Hv _]]]. pose proof (norm_nth fl1 i Nm1) as N1. unfold norm in *.
+        destruct Hv as [->|[->| ->]]; auto.
+      - exists fl1, tf1, None. split; [reflexivity|]. split; [apply E.eqv_refl|].
+        split; [exact Hh1|]. split; [exact In1|]. split; [exact Len1 | exact Nm1]. }
+    rewrite Em. clear Em.
+    set (fl3 := reset_flags fl2).
+    set (sl2 := U.reset_failed (U.copy_chunks Hc Aopt sl1)).
+    destruct (UP.reset_failed_props Hc _ (UP.copy_chunks_good Hc Hf Aopt sl1 G1)) as [G2 [NF2 _]]. fold sl2 in G2, NF2.
+    assert (ZV2 : Forall UP.zvalid sl2).
+    { unfold sl2. rewrite <- E2. apply UP.copy_reset_zvalid. apply (UP.scan_flags_zvalid Hc Hf); assumption. }
+    assert (In3 : inside doff cs fl3 tf2).
+    { intros i c Hn Hv. apply (In2 i c Hn). unfold fl3 in Hv. rewrite nth_reset in Hv.
+      destruct (nth i fl2 0 =? -1)%Z; [discriminate Hv | exact Hv]. }
+    set (sa := LP.absr ul doff fb 0 (wtab cs fl3) tf2).
+    assert (Esa : E.eqv sa sl2).
+    { eapply E.eqv_trans; [exact (absr_abs_eqv cs doff fb [] cs fl3 tf2 eq_refl b_compl In3)|].
+      unfold fl3. rewrite (link_reset_failed doff fb tf2 cs fl2 Len2 Nm2).
+      apply E.reset_failed_eqv. exact Ecp. }
+    pose proof (eqv_good Hc _ _ (E.eqv_sym _ _ Esa) G2) as Ga.
+    pose proof (eqv_nofail _ _ (E.eqv_sym _ _ Esa) NF2) as NFa.
+    pose proof (eqv_zvalid _ _ (E.eqv_sym _ _ Esa) ZV2) as ZVa.
+    destruct UP.tbl_0 as [m Em]. rewrite Em.
+    set (fuel := (length cs + length range_attempt + 1)%nat).
+    pose proof (loop_sim Hw Hf ds cs doff fb serve srv St0 sized_cs Dpos B64 bok Sv Bn (firstn (N.to_nat doff) tf2) []
+                  fuel m 0 fl3 tf2 [] Ga NFa) as Sim.
+    destruct (UP.loop_ok Hc Hf fuel Bn srv (firstn (N.to_nat doff) tf2) [] m 0 sa [] Hsrv Ga NFa
+                (UP.tbl_some_lt _ _ Em)
+                ltac:(intros a Ea La; rewrite Em in Ea; inversion Ea; subst; exact La)
+                ltac:(unfold fuel, U.missing_count; pose proof (UP.filter_len_le U.is_missing sa);
+                      unfold sa in *; rewrite absr_length, wtab_length in *; lia))
+      as [[_ [_ Nz]] | [sl_end [ev' [R1 _]]]]; [elim Nz; exact ZVa|].
+    fold sa in Sim.
+    destruct (byte_loop Hw doff serve srv fuel m 0 (wtab cs fl3) tf2 []) as [[[stt tab'] f'] ev2].
+    cbv zeta in Sim. destruct Sim as [[fl' Et] [Hh3 Sm]].
+    destruct (finish_status Bn (firstn (N.to_nat doff) tf2) sl_end ([] ++ ev')) as [e Fe].
+    rewrite <- R1 in Fe.
+    destruct stt; try (pose proof (eq_trans (eq_sym Sm) Fe) as X; discriminate X); [|contradiction].
+    destruct Sm as [_ [Gf [NFf Mc]]]. subst tab'.
+    assert (Vf : Forall (fun s => U.s_flag s = U.Valid) (LP.absr ul doff fb 0 (wtab cs fl') f')).
+    { apply UP.no_missing_all_valid; [exact NFf|]. exact (eq_trans (mcount_abs cs doff fb f' (wtab cs fl') 0) Mc). }
+    destruct (UP.good_eq_or_collision Hc Hf _ Gf Vf) as [Ec|C]; [|left; exact C].
+    right. exists (fl_of (wtab cs fl')), ev2. split.
+    + unfold total. rewrite (final_file cs doff fb St0 Lb ul fl' f'); [reflexivity| |exact Ec].
+      intros x Hx. rewrite (Hh3 x Hx). apply Hh2. exact Hx.
+    + intros i c Hn. destruct (nth_absr_cs cs doff fb ul fl' f' i c Hn) as [s [Hs [_ [_ Fs]]]].
+      rewrite Forall_forall in Vf. specialize (Vf s (nth_error_In _ _ Hs)). rewrite Fs in Vf.
+      apply flag_valid_iff in Vf. rewrite nth_fl_of, nth_wtab, Hn. cbn [option_map W.c_valid]. rewrite Vf. reflexivity.
+Qed.
+
+End Run.
+
+(* ------------------------------------------------------------------------------------ *)
+(** * with the header reader: B is given as a file the reader accepts *)
+From ZV Require Format.ParseImpl Dl.UpdateLinkHeader.
+
+Lemma firstn_of_fget (a b : bytes) (n : N) :
+  n <= len a -> n <= len b -> (forall x, x < n -> W.fget a x = W.fget b x) ->
+  firstn (N.to_nat n) a = firstn (N.to_nat n) b.
+Proof.
+  intros La Lb Hx. apply (nth_ext _ _ 0 0).
+  - rewrite !firstn_length. unfold len in *. lia.
+  - intros i Hi. rewrite firstn_length in Hi. unfold len in *.
+    rewrite !FL.nth_firstn_lt by lia. specialize (Hx (N.of_nat i) ltac:(lia)).
+    unfold W.fget in Hx. rewrite Nnat.Nat2N.id in Hx. exact Hx.
+Qed.
+
+(** C04_byte_level_reconstructs_B.  [fb] is accepted by the header reader with record [h];
+    every chunk of [fb] passes validate_chunk and its data digest is right ([wf_new] of its
+    abstraction); [fb] ends with its data section.  Then, for every initial target file
+    [tf] (any bytes, any length, also empty), any flags and context state, any old file
+    whose extents are all inside it (or none), any server/transport that answers each
+    request with the requested extents of [fb] - single-range body or well-formed multipart
+    body, in any non-empty fragments - and allows at least one range per request:
+    after the header fetch the reader finds [h] in the target; the byte-level run ends
+    regularly; the target file is then [fb], byte for byte; every chunk flag is 1 -
+    unless two different byte strings have the same chunk checksum. *)
+Theorem byte_level_reconstructs (H : N -> bytes -> bytes) p h fb old serve srv tf fl0 st :
+  Format.ParseImpl.parse_impl H p fb = Format.ParseImpl.POk h -> wf_bytes fb ->
+  h_detached h = false -> sized h ->
+  len fb = data_offset h + data_total (h_chunks h) ->
+  data_offset h + data_total (h_chunks h) < two64 ->
+  UP.wf_new (Hc_of H h) (Hf_of H h) (abs_new h fb) (U.t_slots (abs h fb fb [])) ->
+  old_ok h old -> 1 <= srv -> serves_B h fb serve ->
+  Format.ParseImpl.parse_impl H p (W.file_write tf 0 (fetch_bytes h fb)) = Format.ParseImpl.POk h /\
+  (UP.collision (Hc_of H h) \/
+   exists fl' ev, byte_update H h fb old serve srv tf fl0 st = Some (BFinish, fl', fb, ev) /\
+                  (forall i c, nth_error (h_chunks h) i = Some c -> nth i fl' 0%Z = 1%Z)).
+Proof.
+  intros Pa Wb Det Sz Lb B64 Bv Ho Hs Sv.
+  pose proof (parse_impl_scan_wf H p fb h Wb Pa) as Wf.
+  split.
+  - destruct (fetched_file H h fb Wf Lb B64 tf) as [L1 [Hh _]].
+    apply (Dl.UpdateLinkHeader.parse_impl_prefix H p fb _ h Pa).
+    apply firstn_of_fget; [exact L1 | destruct Wf as [_ [Le _]]; exact Le | exact Hh].
+  - exact (byte_update_reconstructs H h fb Wf Det Sz Lb B64 Bv old serve srv tf fl0 st Ho Hs Sv).
+Qed.
+
+(** the hypothesis on the server is satisfiable for every B: the server that sends the body
+    of a single-range response in one piece *)
+Definition plain_server (h : header) (fb : bytes) : list W.rentry -> resp :=
+  fun ridx => RPlain [concat (datas_of (data_offset h) fb (wtab (h_chunks h) []) ridx)].
+
+Lemma datas_of_flags doff fb cs : forall fl ridx,
+  datas_of doff fb (wtab cs fl) ridx = datas_of doff fb (wtab cs []) ridx.
+Proof.
+  intros fl ridx. unfold datas_of. apply map_ext. intros e. rewrite !nth_wtab.
+  destruct (nth_error cs (W.r_tgt e)); reflexivity.
+Qed.
+
+Theorem plain_server_serves h fb : serves_B h fb (plain_server h fb).
+Proof.
+  intros fl ridx Rq. unfold plain_server. cbn [resp_ok]. rewrite (datas_of_flags _ _ _ fl ridx). split; [|cbn; rewrite app_nil_r; reflexivity].
+  constructor; [|constructor].
+  destruct Rq as [_ [_ [_ [Ne En]]]]. destruct ridx as [|e ridx]; [contradiction|].
+  destruct (En e (or_introl eq_refl)) as [c [Hc [_ [Rl [_ Pos]]]]].
+  unfold datas_of. cbn [map concat]. rewrite nth_wtab in Hc. rewrite nth_wtab.
+  destruct (nth_error (h_chunks h) (W.r_tgt e)) as [a|]; [|discriminate]. cbn [option_map] in *.
+  inversion Hc; subst c. cbn [W.c_start W.c_len] in *.
+  intros X. apply (f_equal (@length N)) in X. rewrite app_length, FL.fread_length in X. cbn [length] in X. lia.
+Qed.
